@@ -94,6 +94,10 @@ Next == IF r_phase # "done"
              THEN P!DNext /\ UNCHANGED rvars
              ELSE UNCHANGED <<rvars, pvars>>          \* both runs finished (anything else that stops is a deadlock)
 Spec == Init /\ [][Next]_<<rvars, pvars>>
+\* weak fairness of the whole next-state relation: some enabled step is eventually taken
+FairSpec == Spec /\ WF_<<rvars, pvars>>(Next)
+\* C21 "cppcheck still terminates": every fair behaviour - whatever worker dies wherever - reaches the end of the run
+Terminates == <>(p_phase = "done")
 
 Range(s) == {s[i] : i \in DOMAIN s}
 
